@@ -53,6 +53,9 @@ def deep_equal(seq1: Iterable[Any],
             return False
         return all(etree_deep_equal(c1, c2) for c1, c2 in zip(e1, e2))
 
+    def as_sequence(value: Any) -> Iterable[Any]:
+        return value if isinstance(value, list) else [value]
+
     if collation is None:
         collation = UNICODE_CODEPOINT_COLLATION
 
@@ -73,13 +76,25 @@ def deep_equal(seq1: Iterable[Any],
             elif value1 is None:
                 return True
             elif isinstance(value1, XPathMap):
-                if not isinstance(value2, XPathMap):
+                if not isinstance(value2, XPathMap) or len(value1) != len(value2):
                     return False
-                return value1 == value2
+
+                items2 = list(value2.items())
+                for k1, v1 in value1.items():
+                    for k2, v2 in items2:
+                        if same_key(k1, k2):
+                            if not deep_equal(as_sequence(v1), as_sequence(v2), collation, token):
+                                return False
+                            break
+                    else:
+                        return False
             elif isinstance(value1, XPathArray):
-                if not isinstance(value2, XPathArray):
+                if not isinstance(value2, XPathArray) or len(value1) != len(value2):
                     return False
-                return value1 == value2
+
+                for v1, v2 in zip(value1.items(), value2.items()):
+                    if not deep_equal(as_sequence(v1), as_sequence(v2), collation, token):
+                        return False
             elif isinstance(value1, XPathNode):
                 if value1.__class__ != value2.__class__:
                     return False
@@ -147,7 +162,7 @@ def deep_equal(seq1: Iterable[Any],
                         elif isinstance(value2, Decimal):
                             if value1 != float(value2):
                                 return False
-                        elif not isinstance(value2, (value1.__class__, int)):
+                        elif not isinstance(value2, (float, int)):
                             return False
                         elif value1 != value2:
                             return False
@@ -165,6 +180,11 @@ def deep_equal(seq1: Iterable[Any],
                             return False
                         elif value1 != value2:
                             return False
+                    elif isinstance(value1, AbstractDateTime) \
+                            and isinstance(value2, AbstractDateTime) \
+                            and not isinstance(value1, type(value2)) \
+                            and not isinstance(value2, type(value1)):
+                        return False  # 'eq' is not defined between different date/time types
                     elif value1 != value2:
                         return False
                 except TypeError:
